@@ -126,16 +126,23 @@ def r02c(model: Model, rr: RuleResult):
     mig_calls = find_calls(fi, "_migrate_to_defs")
     if len(mig_calls) == 1:
         facts = [norm(e) for e, pol in guard_facts(cfg, cfg.node_for(mig_calls[0]))]
-        if any("color_glyph.ufo_glyph_name != _color_glyph_name(" in f for f in facts):
+        from .c07 import migrate_condition_ok
+        whole_ok = migrate_condition_ok(cfg, cfg.node_for(mig_calls[0]), fi)
+        if whole_ok:
+            rr.ok("_migrate_to_defs is taken exactly when the reused element belongs to another colour glyph or carries paint attributes (truth table of the path condition)")
+            rr.ok("_migrate_to_defs is also taken whenever the reused element has any attribute _apply_paint may set")
+        elif any("color_glyph.ufo_glyph_name != _color_glyph_name(" in f for f in facts):
             rr.ok("_migrate_to_defs is taken when the reused element belongs to another colour glyph")
         else:
             rr.bad_shape(fi, mig_calls[0], "reuse across glyphs is not forced through <defs>", construct=f"_migrate_to_defs under {facts[-2:]}")
         # second reason: the target carries any paint attribute at all (a <use> can neither override nor unset what its target declares)
-        tests = [e for e, pol in guard_facts(cfg, cfg.node_for(mig_calls[0])) if isinstance(e, ast.BoolOp) and isinstance(e.op, ast.Or)]
+        tests = [] if whole_ok else [e for e, pol in guard_facts(cfg, cfg.node_for(mig_calls[0])) if isinstance(e, ast.BoolOp) and isinstance(e.op, ast.Or)]
         disj = [v for t in tests for v in t.values]
         bare = [v for v in disj if isinstance(v, ast.Call) and callee_tail(v) == "_attrib_apply_paint_uses" and len(v.args) == 1 and norm(v.args[0]) == "reused_el"]
         narrowed = [v for v in disj if any(isinstance(c, ast.Call) and callee_tail(c) == "_attrib_apply_paint_uses" for c in ast.walk(v)) and v not in bare]
-        if bare and not narrowed:
+        if whole_ok:
+            pass
+        elif bare and not narrowed:
             rr.ok("_migrate_to_defs is also taken whenever the reused element has any attribute _apply_paint may set")
         else:
             rr.bad_shape(fi, mig_calls[0], f"the 'target has paint attributes' reason for moving the target to <defs> is narrowed to {[short(v, 80) for v in narrowed] or 'nothing'}: a later "
